@@ -338,6 +338,48 @@ def render_nosize(v) -> str:
     return render(v)
 
 
+def unrender(run, text: str):
+    """inverse of `render`: rebuild the value (generated instances are allocated without calling
+    __init__ and get their attributes assigned, so any recorded object can be reconstructed)"""
+    toks = text.split(" ")
+    pos = 0
+
+    def nxt():
+        nonlocal pos
+        t = toks[pos]
+        pos += 1
+        return t
+
+    def val():
+        t = nxt()
+        if t == "M":
+            return _MISSING
+        if t == "N":
+            return None
+        if t == "B":
+            return nxt() == "1"
+        if t == "I":
+            return int(nxt())
+        if t == "S":
+            return common.from_cps(nxt())
+        if t == "Y":
+            return bytes.fromhex(nxt())
+        if t == "T":
+            return tuple(val() for _ in range(int(nxt())))
+        if t == "O":
+            cls = run.get_class(nxt())
+            o = cls.__new__(cls)
+            for _ in range(int(nxt())):
+                k = nxt()
+                v = val()
+                if v is not _MISSING:
+                    setattr(o, "_" + k, v)
+            o._byte_size = int(nxt())
+            return o
+        raise ValueError(f"cannot rebuild from token {t!r}")
+    return val()
+
+
 def render_exc(e: BaseException) -> str:
     return common.exc_class(e)
 
